@@ -364,3 +364,19 @@ Example C04_avl_history_reopen_example :
   9 < 2 ^ bits_of 1 /\ Master.growth_ok (bits_of 1) (spec_init 9) (ops1 ++ ops2) /\
   ops_fit ex_lay8 (ops1 ++ ops2).
 Proof. exact e2e_example_hyps. Qed.
+
+(* ------------------------------------------------------------------ *)
+(* Explicit handles, continued (Avl/SessionMore.v). *)
+From Coq Require Import Permutation.
+From Stevia Require Import Avl.Master Avl.LinkSteps Avl.LinkInsert Avl.Session Avl.SessionFacts Avl.Capacity Avl.EndToEnd Avl.SessionMore.
+(* dropping the handle of a settled tree changes nothing *)
+Theorem C04_session_reopen_settled :
+  forall (bits : N) (s : st) (ops : list op),
+  settled s ->
+  run_sess bits {| c_st := s; c_live := false |} ops = run_sess bits {| c_st := s; c_live := true |} ops /\
+  x <- final_sess bits {| c_st := s; c_live := false |} ops;; Ok (c_st x) =
+  x <- final_sess bits {| c_st := s; c_live := true |} ops;; Ok (c_st x).
+Proof. exact session_reopen_settled. Qed.
+Print Assumptions C04_session_reopen_settled.
+
+Example C04_session_unsettled_differs := sess_reopen_unsettled_differs.
